@@ -98,7 +98,7 @@ Proof.
   induction k as [|c k IH]; intros w F n f H.
   - cbn. rewrite !app_nil_r. reflexivity.
   - cbn [forallb] in H. apply andb_prop in H. destruct H as [Hc H].
-    cbn [mrun]. unfold mstep. rewrite (word_not_colon c Hc), Hc. cbn [cw mfields mname mfield].
+    cbn [mrun]. unfold mstep, mstep_gen. rewrite (word_not_colon c Hc), Hc. cbn [cw mfields mname mfield].
     rewrite IH by exact H. rewrite <- !app_assoc. reflexivity.
 Qed.
 
@@ -108,7 +108,7 @@ Proof.
   induction k as [|c k IH]; intros w F H.
   - cbn. rewrite app_nil_r. reflexivity.
   - cbn [forallb] in H. apply andb_prop in H. destruct H as [Hc H].
-    cbn [mrun]. unfold mstep. rewrite (word_not_colon c Hc), Hc. cbn [cw mfields mname mfield].
+    cbn [mrun]. unfold mstep, mstep_gen. rewrite (word_not_colon c Hc), Hc. cbn [cw mfields mname mfield].
     rewrite IH by exact H. rewrite <- app_assoc. reflexivity.
 Qed.
 
@@ -119,7 +119,7 @@ Proof.
   induction t as [|c t IH]; intros w F n f H.
   - exists w. cbn. rewrite app_nil_r. reflexivity.
   - cbn [forallb] in H. apply andb_prop in H. destruct H as [Hc H]. apply negb_true_iff in Hc.
-    cbn [mrun]. unfold mstep. rewrite Hc. cbn [cw mfields mname mfield snoc].
+    cbn [mrun]. unfold mstep, mstep_gen. rewrite Hc. cbn [cw mfields mname mfield snoc].
     assert (G: forall w2, exists w', mrun (mkMs w2 F (Some n) (Some (f ++ [c]))) t = Some (mkMs w' F (Some n) (Some (f ++ c :: t)))).
     { intros w2. destruct (IH w2 F n (f ++ [c]) H) as [w' Hw]. exists w'. rewrite <- app_assoc in Hw. exact Hw. }
     destruct (is_word c); [|destruct (is_blank c)]; cbn iota; apply G.
@@ -155,11 +155,11 @@ Lemma run_value F n v : good_val v ->
   mrun (mkMs [] F (Some n) None) (32 :: v ++ [32]) = Some (mkMs [] F (Some n) (Some (v ++ [32]))).
 Proof.
   intros ((c & v' & Hv & Hc) & Hlast & Hnc). subst v.
-  cbn [mrun]. unfold mstep at 1. cbn. cbn [app mrun]. unfold mstep at 1.
+  cbn [mrun]. unfold mstep at 1; unfold mstep_gen at 1. cbn. cbn [app mrun]. unfold mstep at 1; unfold mstep_gen at 1.
   rewrite (word_not_colon c Hc), Hc. cbn [cw mfields mname mfield app].
   rewrite mrun_app. cbn [forallb] in Hnc. apply andb_prop in Hnc. destruct Hnc as [_ Hnc].
   destruct (run_text v' [c] F n [c] Hnc) as [w' Hw]. urw Hw.
-  cbn [mrun]. unfold mstep. cbn. reflexivity.
+  cbn [mrun]. unfold mstep, mstep_gen. cbn. reflexivity.
 Qed.
 
 Definition setkv (F : fields) (kv : ustring * ustring) : fields := set_field (fst kv) (Some (snd kv)) F.
@@ -179,7 +179,7 @@ Proof.
     cbn [render flat_map]. unfold render_kv at 1. cbn [fst snd]. rewrite !mrun_app.
     urw (run_key k [] F (c :: n) (v ++ [32]) Hw). cbn [app].
     change ([COLON; 32] ++ v2 ++ [32]) with (COLON :: (32 :: v2 ++ [32])).
-    remember (32 :: v2 ++ [32]) as tl eqn:Etl. cbn [mrun]. unfold mstep at 1. cbn [mname mfield cw mfields]. rewrite Z.eqb_refl.
+    remember (32 :: v2 ++ [32]) as tl eqn:Etl. cbn [mrun]. unfold mstep at 1; unfold mstep_gen at 1. cbn [mname mfield cw mfields]. rewrite Z.eqb_refl.
     rewrite firstn_drop_suffix, (strip_val_sp v Hv), (strip_word k Hw).
     subst tl. urw (run_value (set_field (c :: n) (Some v) F) k v2 Hgv).
     destruct (IH (set_field (c :: n) (Some v) F) k v2 Hgv Hk') as [H|H].
@@ -194,7 +194,7 @@ Proof.
   unfold collect_metadata. cbn [render flat_map]. unfold render_kv at 1. cbn [fst snd]. rewrite !mrun_app.
   unfold ms0. urw (run_key0 k [] [] Hw). cbn [app].
   change ([COLON; 32] ++ v ++ [32]) with (COLON :: (32 :: v ++ [32])).
-  remember (32 :: v ++ [32]) as tl eqn:Etl. cbn [mrun]. unfold mstep at 1. cbn [mname mfield cw mfields]. rewrite Z.eqb_refl.
+  remember (32 :: v ++ [32]) as tl eqn:Etl. cbn [mrun]. unfold mstep at 1; unfold mstep_gen at 1. cbn [mname mfield cw mfields]. rewrite Z.eqb_refl.
   rewrite (strip_word k Hw). subst tl. urw (run_value [] k v Hgv).
   destruct (run_rest kvs [] k v Hgv Hk) as [H1|H1]; [|contradiction].
   cbn iota beta. refine (eq_trans H1 _). destruct k; [contradiction|reflexivity].
@@ -215,3 +215,21 @@ Proof.
   induction ps as [|p ps IH]; [reflexivity|]. cbn. destruct (is_stdout p) eqn:E; cbn; [reflexivity|].
   rewrite E. cbn. rewrite IH. reflexivity.
 Qed.
+
+(** free comment text never makes the comment parser fail (repaired D23) *)
+Lemma mstep_total s c : exists s', mstep s c = Some s'.
+Proof.
+  unfold mstep, mstep_gen. destruct (c =? COLON).
+  - destruct (mname s); [destruct (mfield s)|]; eexists; reflexivity.
+  - destruct (is_word c); [eexists; reflexivity|]. destruct (is_blank c); eexists; reflexivity.
+Qed.
+Theorem collect_metadata_total : forall comment, exists fs, collect_metadata comment = Some fs.
+Proof.
+  intros comment. unfold collect_metadata.
+  assert (H: forall t s, exists s', mrun s t = Some s').
+  { induction t as [|c r IH]; intros s; [eexists; reflexivity|]. cbn [mrun]. destruct (mstep_total s c) as [s' ->]. apply IH. }
+  destruct (H comment ms0) as [s' ->]. eexists. reflexivity.
+Qed.
+(** D23 witness: "a: :" *)
+Theorem key_without_value_refuted : collect_metadata_d23 [97; 58; 32; 58] = None /\ collect_metadata [97; 58; 32; 58] = Some [([97], None)].
+Proof. split; vm_compute; reflexivity. Qed.
